@@ -7,8 +7,10 @@ def run(pid, tier, seed, ROOT, REPO, WORK):
     count = 600 if tier == 'quick' else 40000
     impl = os.path.join(WORK, 'access_impl.txt'); model = os.path.join(WORK, 'access_model.txt')
     p = subprocess.run([h, 'access', '--seed', str(seed), '--count', str(count)], stdout=open(impl, 'w'), stderr=subprocess.PIPE, text=True)
+    died = None
     if p.returncode != 0:
-        out['violations'].append(('access: the harness died: ' + p.stderr[-300:], impl)); return out
+        last = [l for l in p.stderr.splitlines() if l.startswith('try ')]
+        died = f'the process died (signal/abort, exit status {p.returncode}) while dereferencing a guard of the observation `{last[-1] if last else "?"}` (shapes by index: see harness/src/access_mode.rs)'
     subprocess.run([d, 'access', impl], stdout=open(model, 'w'))
     a = [l.rstrip('\n') for l in open(impl)]; b = [l.rstrip('\n') for l in open(model)]
     bad = []; shapes = {}
@@ -18,8 +20,9 @@ def run(pid, tier, seed, ROOT, REPO, WORK):
         if not x.startswith(y): bad.append(f'guard does not denote the projection of its one snapshot: observed `{x}`; one-snapshot semantics gives `{y}`')
         if 'alive_while_guarded=0' in x or 'released_after=0' in x: bad.append('snapshot not kept alive by the guard / not released with it: ' + x)
     out['coverage'] = {'evaluations': len(a), 'distinct_nontrivial': len(set(a)), 'traces_validated_against_impl': len(a) - len(bad), 'shapes': shapes,
-                       'rule': 'random observations over 14 access shapes (container, &, Arc, Map depth 1-2, Box/Arc<dyn DynAccess>, dyn over Map over dyn over Map, AccessConvert, Constant, guard moved to another thread, keep-alive), 0-3 stores between guard creation and each later deref; distinct = distinct observation lines; non-trivial: all (each checks stability and freshness)'}
+                       'rule': 'random observations over 20 access shapes (container, &, Arc, Map depth 1-2, Box/Arc<dyn DynAccess>, dyn over Map over dyn over Map, AccessConvert, Constant, Map (depth 1-2, static and dyn) over Constant and over the container viewed as Access<Arc<T>> with projections into what the inner guard holds inline, guard moved to another thread, keep-alive); every guard is boxed (moved) and the stack below it overwritten between creation and each deref, 0-3 stores between guard creation and each later deref; distinct = distinct observation lines; non-trivial: all (each checks stability and freshness)'}
     out['samples'] = [{'access_observation': x} for x in a[:3]]
+    if died: bad.append(died)
     if bad:
         path = os.path.join(ROOT, 'replays'); os.makedirs(path, exist_ok=True)
         path = os.path.join(path, f'{pid}-access.txt'); open(path, 'w').write('\n'.join(bad[:50]) + f'\n\nreplay: harness access --seed {seed} --count {count}\n')
